@@ -135,7 +135,16 @@ struct Local {
     stats: Stats,
     vios: VioSet,
     succs: Vec<Succ>,
+    edges: Vec<(u32, u32, i32)>,
     cur_obs: Option<String>,
+    class_counts: Vec<(u16, u64)>,
+}
+
+fn class_name(idx: usize) -> String {
+    let w = idx % 10;
+    let r = (idx / 10) % 10;
+    let res = ["InputEmpty", "OutputFull", "Unmappable"][idx / 100];
+    format!("{} read{} written{}", res, r, w)
 }
 
 struct Succ {
@@ -143,6 +152,7 @@ struct Succ {
     call: ECallRec,
     fresh: bool,
     to: Result<u32, Arc<EKey>>,
+    hash: u64,
     weight: Option<i32>,
 }
 
@@ -269,8 +279,10 @@ pub struct Explorer<'a> {
     chunks: Vec<Vec<u32>>,
     nodes: Vec<NodeMeta>,
     keys: Vec<Arc<EKey>>,
-    index: HashMap<Arc<EKey>, u32>,
+    index: HashIndex,
     edges: Vec<(u32, u32, i32)>,
+    classified: std::sync::atomic::AtomicUsize,
+    shard: String,
 }
 
 fn build_chunks(syms: &[Vec<u32>], k: usize) -> Vec<Vec<u32>> {
@@ -295,7 +307,7 @@ fn build_chunks(syms: &[Vec<u32>], k: usize) -> Vec<Vec<u32>> {
 
 impl<'a> Explorer<'a> {
     pub fn new(cfg: &'a ECfg) -> Explorer<'a> {
-        Explorer { cfg, chunks: build_chunks(&cfg.syms, cfg.k), nodes: vec![], keys: vec![], index: HashMap::new(), edges: vec![] }
+        Explorer { cfg, chunks: build_chunks(&cfg.syms, cfg.k), nodes: vec![], keys: vec![], index: HashIndex::new(), edges: vec![], classified: std::sync::atomic::AtomicUsize::new(0), shard: format!("xenc/{}", cfg.label()) }
     }
 
     fn src_len(&self, units: &[u32]) -> usize {
@@ -416,6 +428,11 @@ impl<'a> Explorer<'a> {
 
     fn classify(&self, l: &mut Local, what: &str, parent: u32, call: &ECallRec) {
         let cfg = self.cfg;
+        // classification replays whole histories: do it for the first few divergences only
+        if self.classified.fetch_add(1, std::sync::atomic::Ordering::Relaxed) >= 24 {
+            l.vios.count_only(cfg.tag_chunk, "divergence-not-classified-after-the-first-24");
+            return;
+        }
         let mut calls: Vec<ECallRec> = self.path(parent).into_iter().map(|(c, _)| c).collect();
         calls.push(call.clone());
         let closed = close_history(cfg, &calls);
@@ -483,7 +500,30 @@ impl<'a> Explorer<'a> {
                 return;
             }
         };
-        l.stats.class(&format!("{} read{} written{}", match o.res { ERes::Unmappable(_) => "Unmappable".to_string(), x => x.short() }, o.read.min(9), o.written.min(9)));
+        {
+            let rk = match o.res {
+                ERes::InputEmpty => 0usize,
+                ERes::OutputFull => 1,
+                ERes::Unmappable(_) => 2,
+            };
+            let ci = ((rk * 10 + o.read.min(9)) * 10 + o.written.min(9)) as u16;
+            match l.class_counts.iter_mut().find(|e| e.0 == ci) {
+                Some(e) => e.1 += 1,
+                None => l.class_counts.push((ci, 1)),
+            }
+        }
+        {
+            let mut f = Fnv::new();
+            for &u in units {
+                f = f.u(u as u64);
+            }
+            let f = f.u(cap as u64).b(last as u8).u(o.read as u64).u(o.written as u64).bytes(&o.out).s(&o.res.short()).b(match o.had_unmappables {
+                None => 2,
+                Some(b) => b as u8,
+            });
+            describe(|| format!("{} units {} cap {} last {} -> {}", cfg.label(), units_short(units), cap, last, eobs_canon(&o)));
+            l.stats.dig(&self.shard, f);
+        }
         let srclen = self.src_len(units);
         // ---- C06
         let mut broken = false;
@@ -746,11 +786,25 @@ impl<'a> Explorer<'a> {
         let nlast = if rem.is_empty() && !last { false } else { nlast };
         let nk = EKey { enc, rf, di, ds, rem, last: nlast && !fin, fin, back, back_got, back_want };
         let weight = if in_domain { Some(if o.res == ERes::InputEmpty { -4 * o.read as i32 } else { 1 - 4 * o.read as i32 }) } else { None };
-        let to = match self.index.get(&nk) {
-            Some(&i) => Ok(i),
-            None => Err(Arc::new(nk)),
-        };
-        l.succs.push(Succ { parent: id, call, fresh, to, weight });
+        let h = hash_of(&nk);
+        match self.index.find(h, |i| *self.keys[i as usize] == nk) {
+            Some(i) => {
+                // known target: nothing to merge; remember the edge for the progress graph only
+                if self.cfg.or.graph {
+                    if let Some(w) = weight {
+                        l.edges.push((id, i, w));
+                    }
+                }
+            }
+            None => {
+                // new in this level: drop duplicates found by this work item already
+                let dup = l.succs.iter().rev().take(64).any(|s| s.hash == h && matches!(&s.to, Err(k) if **k == nk));
+                if dup && !self.cfg.or.graph {
+                    return;
+                }
+                l.succs.push(Succ { parent: id, call, fresh, to: Err(Arc::new(nk)), weight, hash: h })
+            }
+        }
     }
 
     fn twin(&self, l: &mut Local, parent: u32, call: &ECallRec) {
@@ -860,24 +914,27 @@ impl<'a> Explorer<'a> {
         }
     }
 
-    fn expand(&self, id: u32) -> Local {
+    fn expand(&self, id: u32, lo: usize, hi: usize) -> Local {
         let mut l = Local::default();
         l.stats = Stats::new();
         let key = self.keys[id as usize].clone();
         if key.fin {
             return l;
         }
-        if !key.in_chunk() {
+        if !key.in_chunk() && lo == 0 {
             self.node_oracles(&mut l, id, &key);
         }
         let aligns: &[u8] = if self.cfg.or.aligns { &[0, 1, 7, 15] } else { &[0] };
         if key.in_chunk() {
+            if lo != 0 {
+                return l;
+            }
             let src = key.rem.clone();
             for cap in self.caps(&key, &src, key.last) {
                 self.transition(&mut l, id, &key, &src, key.last, false, cap, 0);
             }
         } else {
-            for ch in &self.chunks {
+            for ch in self.chunks.iter().skip(lo).take(hi - lo) {
                 for last in [false, true] {
                     for cap in self.caps(&key, ch, last) {
                         let al: &[u8] = if ch.len() >= 16 { aligns } else { &[0] };
@@ -904,21 +961,41 @@ impl<'a> Explorer<'a> {
         self.keys.push(root.clone());
         self.nodes.push(NodeMeta { parent: 0, call: dummy, fresh: true });
         self.keys.push(root.clone());
-        self.index.insert(root, 1);
+        self.index.insert(hash_of(&*root), 1);
         let mut frontier: Vec<u32> = vec![1];
         let mut depth = 0u64;
         while !frontier.is_empty() {
             depth += 1;
-            let locals: Vec<Local> = par_map(&frontier, cfg.threads, |&id| self.expand(id));
+            let mut items: Vec<(u32, usize, usize)> = vec![];
+            for &id in &frontier {
+                let k = &self.keys[id as usize];
+                if k.fin || k.in_chunk() {
+                    items.push((id, 0, usize::MAX));
+                } else {
+                    let mut lo = 0;
+                    while lo < self.chunks.len() {
+                        items.push((id, lo, lo + 64));
+                        lo += 64;
+                    }
+                }
+            }
+            let locals: Vec<Local> = par_map(&items, cfg.threads, |&(id, lo, hi)| self.expand(id, lo, hi));
             let mut next = vec![];
+            let mut class_total = vec![0u64; 300];
             for l in locals {
+                for (i, c) in l.class_counts.iter() {
+                    class_total[*i as usize] += c;
+                }
                 stats.merge(&l.stats);
                 vios.merge(l.vios);
+                if cfg.or.graph {
+                    self.edges.extend_from_slice(&l.edges);
+                }
                 for s in l.succs {
                     let to = match s.to {
                         Ok(i) => i,
-                        Err(k) => match self.index.get(&k) {
-                            Some(&i) => i,
+                        Err(k) => match self.index.find(s.hash, |i| *self.keys[i as usize] == *k) {
+                            Some(i) => i,
                             None => {
                                 let i = self.nodes.len() as u32;
                                 if k.fin {
@@ -926,7 +1003,7 @@ impl<'a> Explorer<'a> {
                                 }
                                 self.nodes.push(NodeMeta { parent: s.parent, call: s.call.clone(), fresh: s.fresh });
                                 self.keys.push(k.clone());
-                                self.index.insert(k, i);
+                                self.index.insert(s.hash, i);
                                 next.push(i);
                                 i
                             }
@@ -939,7 +1016,17 @@ impl<'a> Explorer<'a> {
                     }
                 }
             }
+            for (i, c) in class_total.iter().enumerate() {
+                if *c > 0 {
+                    *stats.classes.entry(class_name(i)).or_insert(0) += c;
+                }
+            }
             stats.max_depth = depth;
+            if vios.total() >= 500 {
+                stats.exhaustive = false;
+                stats.caps_hit.push(format!("{}: exploration stopped after depth {} because {} violations were already recorded", cfg.label(), depth, vios.total()));
+                break;
+            }
             if self.nodes.len() > cfg.max_states {
                 stats.exhaustive = false;
                 stats.caps_hit.push(format!("{}: state cap {} reached at depth {}", cfg.label(), cfg.max_states, depth));
